@@ -382,6 +382,28 @@ class Gen:
         pure = spec.get("pure", False)
         ap("R7-calls", R.rule_world_calls, self.effectful)
         sig, body = split_fn(t)
+        # binders: locals a contract must mention (loop-carried variables) are found by what they are initialised from,
+        # not by their names: `$name` in clauses / hints is replaced by the identifier found
+        if spec.get("binders") and body is not None and not assumed:
+            found = {}
+            for bn, rx in spec["binders"].items():
+                m = re.search(rx, body)
+                if not m:
+                    raise Unsupported("lost anchor: local `%s` of %s (pattern %s)" % (bn, key, rx))
+                found[bn] = m.group(1)
+            def bsub(e):
+                for bn, nm in found.items():
+                    e = e.replace("$" + bn, nm)
+                return e
+            def bclauses(cl):
+                return [(l, p_, bsub(e)) for (l, p_, e) in cl or []]
+            spec = dict(spec)
+            for kk in ("requires", "ensures"):
+                if spec.get(kk): spec[kk] = bclauses(spec[kk])
+            if spec.get("loops"):
+                spec["loops"] = {lk: {ck: (bclauses(cv) if isinstance(cv, list) else bsub(cv)) for ck, cv in lv.items()} for lk, lv in spec["loops"].items()}
+            if spec.get("proofs"):
+                spec["proofs"] = [tuple(bsub(x) if i == 1 else x for i, x in enumerate(pr)) for pr in spec["proofs"]]
         if not pure:
             sig2 = R.rule_world_param(sig)
             if sig2 != sig: applied.append("R7-param")
@@ -444,9 +466,20 @@ class Gen:
             for pr in spec.get("proofs", []):
                 anchor, proof = pr[0], pr[1]
                 mode = pr[2] if len(pr) > 2 else "after"
+                if isinstance(anchor, (list, tuple)):
+                    hit = [a for a in anchor if re.search(a, body)]
+                    if not hit:
+                        raise Unsupported("lost anchor for proof hint in %s: %r" % (key, anchor))
+                    anchor = re.search(hit[0], body).group(0)
                 if anchor not in body:
                     raise Unsupported("lost anchor for proof hint in %s: %r" % (key, anchor))
-                rep = {"after": anchor + " " + proof, "before": proof + " " + anchor, "replace": proof}[mode]
+                if mode == "none_branch":
+                    # the branch taken when the walk falls off the graph: `None => return false` or `else { return false; }`
+                    hint = ("proof { assert(walk(graph@, from, (_vx_i + 1) as nat) is None); "
+                            "lemma_no_reach_after_none(graph@, from, to, _vx_i as nat); } return false")
+                    rep = ("None => { %s }" % hint) if anchor.startswith("None") else ("else { %s; }" % hint)
+                else:
+                    rep = {"after": anchor + " " + proof, "before": proof + " " + anchor, "replace": proof}[mode]
                 body = body.replace(anchor, rep, 1)
             out = "\n".join(lines) + "\n" + body
         out = re.sub(r"\bpub\s*\(\s*(crate|super)\s*\)", "pub", out)
